@@ -415,7 +415,7 @@ class LibHarness(Harness):
         if (('H',) in old_spec) != (('H',) in hist[0][1]): ctx.cover('title-changed')
         if self.tv_pick(ctx.trace):
             script, probes = self.native_scripts(jsonable_spec(ctx.input_desc), sorted(texts))
-            exp = {k: v for k, v in oi.items() if not k.startswith(('content:', 'search'))}
+            exp = {k: (v if not k.startswith('content:') else (None if v is None else 'present')) for k, v in oi.items() if not k.startswith('search')}
             ctx.tv = {'script': script[0], 'expect': None, 'post': ('lib', sorted(texts), jsonable_cmp(exp))}
         return {'input': str(ctx.input_desc)[:300], 'arena_nodes': len(nodes_i), 'paths': str(oi['paths'])[:120]}
 
@@ -449,7 +449,7 @@ class LibHarness(Harness):
         probes = []
         allk = sorted(set(texts) | {'zz'})
         for k in allk:
-            probes += [{'op': 'block_refs_to', 'key': k}, {'op': 'inline_refs_to', 'key': k}, {'op': 'title', 'key': k}, {'op': 'metadata', 'key': k}]
+            probes += [{'op': 'block_refs_to', 'key': k}, {'op': 'inline_refs_to', 'key': k}, {'op': 'title', 'key': k}, {'op': 'metadata', 'key': k}, {'op': 'content', 'key': k}]
         probes += [{'op': 'paths'}, {'op': 'arena'}, {'op': 'keys'}]
         for k in sorted(texts):
             probes.append({'op': 'collect', 'key': k})
@@ -462,12 +462,15 @@ class LibHarness(Harness):
         nodes, keys = res[-2 - nt], res[-1 - nt]
         om = ordinals(nodes, keys)
         out = {}
-        i = len(res) - (4 * len(set(texts) | {'zz'}) + 3 + nt)
+        i = len(res) - (5 * len(set(texts) | {'zz'}) + 3 + nt)
         for k in sorted(set(texts) | {'zz'}):
             out['block_refs_to:' + k] = sorted(name_id(x, nodes, om) for x in res[i]); i += 1
             out['inline_refs_to:' + k] = sorted(name_id(x, nodes, om) for x in res[i]); i += 1
             out['title:' + k] = res[i]; i += 1
             out['metadata:' + k] = res[i]; i += 1
+            if k in texts:
+                out['content:' + k] = None if res[i] is None else 'present'
+            i += 1
         out['paths'] = sorted([name_id(x, nodes, om) for x in p] for p in res[i]); i += 3
         for k in sorted(texts):
             out['tree:' + k] = strip_ids(res[i]); i += 1
@@ -486,9 +489,14 @@ class LibHarness(Harness):
             return False
         return True
 
+    def on_panic(self, ctx, ex, e, res):
+        for pfx in ('C04', 'C12', 'C20', 'C03'):
+            ctx.violations.append({'law': pfx + '.library-operations-do-not-panic', 'model': {},
+                                   'info': {'msg': res['detail'], 'where': res.get('where'), 'input': getattr(ctx, 'input_desc', None)}})
+
     def finish_violation(self, ctx, v):
-        v['role'] = self.role_of(v)
-        v['input_tree'] = jsonable_spec(ctx.input_desc)
+        v['role'] = self.role_of(v) if 'input' in v['info'] and isinstance(v['info']['input'], dict) and 'history' in v['info']['input'] else 'general'
+        v['input_tree'] = jsonable_spec(ctx.input_desc) if getattr(ctx, 'input_desc', None) and 'texts0' in ctx.input_desc else None
 
     def role_of(self, v):
         law = v['law']
@@ -522,6 +530,9 @@ class LibHarness(Harness):
         diffs = [k for k in of if jsonable_cmp(oi[k]) != jsonable_cmp(of[k])]
         v['replay_result'] = {'differences': diffs, 'incremental': {k: oi[k] for k in diffs}, 'fresh': {k: of[k] for k in diffs}}
         law = v['law']
+        if law.endswith('.library-operations-do-not-panic'):
+            v['replay_verdict'] = 'no native panic'
+            return False
         if law == 'C18.paths-after-edit-equal-fresh-start':
             v['replay_verdict'] = 'native incremental vs fresh differ on: %s' % diffs
             return 'paths' in diffs
